@@ -74,6 +74,17 @@ func c03Gen(g *core.Gen) {
 			}
 		}
 	}
+	// leftovers of another set under volume names whose announced ranges cover the current volumes', x listing order:
+	// what a file name announces says nothing about what the file holds
+	for _, cfg := range []scen.P2Config{{Sizes: []int{11, 6}, Slice: 4, Blocks: 3, Class: "uniq"}, {Sizes: []int{20, 9}, Slice: 8, Blocks: 7, Class: "uniq", G: 2}} {
+		for stale := 1; stale <= 2; stale++ {
+			for list := 0; list <= 1; list++ {
+				for _, dm := range [][]scen.Dmg{nil, {{Op: "del", F: 0}}, {{Op: "ovw", F: 1, At: 0}}, {{Op: "ins", F: 0, At: 1, N: 1}}} {
+					g.Emit(&p2Case{Cfg: cfg, Dmg: dm, G: 1, Stale: stale, List: list})
+				}
+			}
+		}
+	}
 	genGenerationCases(func(c *p2Case) { g.Emit(c) }, false)
 	for _, lc := range c01LargeConfigs(g.Thorough()) {
 		cfg := lc
